@@ -443,3 +443,30 @@ MUTANTS += [
          old="        seq_lens = ends[line_offsets[1:]-1]-starts[line_offsets[:-1]]\n        sequences = RaggedArray(sequence_lines.ravel(), seq_lens)\n\n        seq_starts",
          new="        seq_lens = ends[line_offsets[1:]-1]-starts[line_offsets[:-1]]\n        seq_lens = np.where(n_lines_per_entry > 6, seq_lens - 1, seq_lens)\n        sequences = RaggedArray(sequence_lines.ravel(), seq_lens)\n\n        seq_starts"),
 ]
+
+BAM = "bionumpy/io/bam.py"
+CIG = "bionumpy/alignments/cigar.py"
+
+MUTANTS += [
+    # ---- C16 ----------------------------------------------------------------------------
+    dict(prop="C16", name="quality-start-even-rounding", file=BAM,
+         old="        return self._sequence_start + (self._get_sequence_length() + 1) // 2", new="        return self._sequence_start + self._get_sequence_length() // 2"),
+    dict(prop="C16", name="nibble-order", file=BAM,
+         old="(4 * np.arange(2, dtype=np.uint8)[::-1])", new="(4 * np.arange(2, dtype=np.uint8))"),
+    dict(prop="C16", name="N-not-reference-consuming", file=CIG,
+         old='    consuming = as_encoded_array("MDN=X", CigarOpEncoding)', new='    consuming = as_encoded_array("MD=X", CigarOpEncoding)'),
+    dict(prop="C16", name="read-name-keeps-terminator", file=BAM,
+         old="        read_names = ragged_slice(self._data, self._read_name_start, self._cigar_start - 1)", new="        read_names = ragged_slice(self._data, self._read_name_start, self._cigar_start - (self._get_read_name_length() < 200))"),
+    dict(prop="C16", name="unmapped-maps-to-last-reference", file=BAM,
+         old="        self._chromosome_names = as_encoded_array([h[0] for h in header_data] + ['*'])", new="        self._chromosome_names = as_encoded_array([h[0] for h in header_data] or ['*'])"),
+    dict(prop="C16", name="strand-from-wrong-flag-bit", file="bionumpy/alignments/__init__.py",
+         old="    strand = alignment.flag & np.uint16(16)", new="    strand = alignment.flag & np.uint16(32)"),
+    dict(prop="C16", name="cigar-length-shift", file=CIG,
+         old="    lengths = (cigars >> 4)", new="    lengths = (cigars >> 4) & np.uint32(2**20-1)"),
+    dict(prop="C16", name="uint8-offset-wraps (seeded C16-a)", file=BAM,
+         old="        return self._read_name_start + self._get_read_name_length()", new="        return self._new_lines + (np.uint8(36) + self._get_read_name_length())"),
+    dict(prop="C16", name="find-starts-drops-last-record-at-chunk-end", file=BAM,
+         old="        starts = list(takewhile(lambda start: start <= len(chunk), _starts))", new="        starts = list(takewhile(lambda start: start < len(chunk), _starts))"),
+    dict(prop="C16", name="filtered-write-uses-all-data", file=BAM,
+         old="        self._data = RaggedArray(\n            self._data, RaggedView2(self._new_lines, lens)).ravel()", new="        self._data = RaggedArray(\n            self._data, RaggedView2(np.sort(self._new_lines), lens[np.argsort(self._new_lines)])).ravel()"),
+]
